@@ -251,3 +251,13 @@ Proof.
   destruct Adj as [?|[?|P]]; auto.
   exfalso. apply mz_anc_le in A; auto. specialize (W _ _ P). lia.
 Qed.
+
+(* Zone::OnAllConfigLoaded refuses a zone whose parent is global: then "no global zone on the way up" only concerns the
+   target endpoint's own zone *)
+Definition mz_parents_plain (t : mz_tree) : Prop := forall z p, mz_par t z = Some p -> mz_glob t p = false.
+
+Lemma mz_path_plain_of_parents t tz : mz_parents_plain t -> mz_glob t tz = false -> mz_path_plain t tz.
+Proof.
+  intros PP G a H. induction H as [z|z p a P _ IH]; [exact G|].
+  apply IH. eapply PP; eauto.
+Qed.
